@@ -71,6 +71,51 @@ def _seq(stmts) -> list[str]:
     return out
 
 
+def poll_consumers(repo: str) -> tuple[bool, list]:
+    """Every call site of get_invocations_to_run in pynenc/runner/*.py must run the generator to its END: the reroute of the
+    invocations a poll deferred by concurrency control happens after the generator's last yield.  Recognised as exhausting:
+    list(...)/tuple(...)/set(...)/sorted(...) around the call; a `for` over the call (or over the name it was assigned to)
+    whose body has no break / return.  Anything else (next(), islice, unpacking, an early exit) counts as NOT exhausted."""
+    import glob
+    import os
+    sites = []
+    ok = True
+    for path in sorted(glob.glob(f"{repo}/pynenc/runner/*.py")):
+        tree = ast.parse(open(path).read())
+        parents = {}
+        for node in ast.walk(tree):
+            for ch in ast.iter_child_nodes(node):
+                parents[ch] = node
+        for node in ast.walk(tree):
+            if not (isinstance(node, ast.Call) and isinstance(node.func, ast.Attribute) and node.func.attr == "get_invocations_to_run"):
+                continue
+            par = parents.get(node)
+            fn = node
+            while fn is not None and not isinstance(fn, (ast.FunctionDef, ast.AsyncFunctionDef)):
+                fn = parents.get(fn)
+
+            def loop_ok(loop):
+                for n in ast.walk(loop):
+                    if isinstance(n, (ast.Break, ast.Return)) and n is not loop:
+                        return False
+                return True
+            verdict = False
+            if isinstance(par, ast.Call) and isinstance(par.func, ast.Name) and par.func.id in ("list", "tuple", "set", "sorted") and par.args and par.args[0] is node:
+                verdict = True
+            elif isinstance(par, ast.For) and par.iter is node:
+                verdict = loop_ok(par)
+            elif isinstance(par, ast.Assign) and len(par.targets) == 1 and isinstance(par.targets[0], ast.Name) and fn is not None:
+                name = par.targets[0].id
+                uses = [n for n in ast.walk(fn) if isinstance(n, ast.Name) and n.id == name and isinstance(n.ctx, ast.Load)]
+                loops = [n for n in ast.walk(fn) if isinstance(n, ast.For) and isinstance(n.iter, ast.Name) and n.iter.id == name]
+                verdict = len(loops) == 1 and len(uses) == 1 and loop_ok(loops[0])
+            sites.append((os.path.basename(path), node.lineno, verdict))
+            ok = ok and verdict
+    if not sites:
+        raise TranslateError("no call site of get_invocations_to_run in pynenc/runner")
+    return ok, sites
+
+
 def translate(repo: str):
     bo = ast.parse(open(f"{repo}/pynenc/orchestrator/base_orchestrator.py").read())
     retry = _seq(_method(bo, "BaseOrchestrator", "set_invocation_retry").body)
@@ -120,6 +165,7 @@ def translate(repo: str):
     for name, seq in (("set_invocation_retry", retry), ("set_invocation_result", fin_ok), ("set_invocation_exception", fin_err), ("reroute", reroute)):
         if "@reroute" in seq:
             raise TranslateError(f"{name}: nested reroute")
+    polls_ok, sites = poll_consumers(repo)
     lines = ["(* GENERATED by harness/translate/crash_progs.py from base_orchestrator.py / base_runner.py / core_tasks.py *)",
              "From Coq Require Import List.", "Import ListNotations.", "From PV Require Import Model.Status Model.Crash.", "",
              f"Definition gen_p_retry : list eff := {lit(retry)}.",
@@ -128,8 +174,9 @@ def translate(repo: str):
              f"Definition gen_kill_reroutes : bool := {'true' if kill_reroutes else 'false'}.",
              f"Definition gen_p_finish_ok : list eff := {lit(fin_ok)}.",
              f"Definition gen_p_finish_err : list eff := {lit(fin_err)}.",
-             f"Definition gen_pop_before_claim : bool := {'true' if pop_first else 'false'}.", ""]
-    info = {"retry": retry, "reroute": reroute, "kill": kill, "finish_ok": fin_ok, "finish_err": fin_err, "poll": s, "recovery": recs}
+             f"Definition gen_pop_before_claim : bool := {'true' if pop_first else 'false'}.",
+             f"Definition gen_poll_exhausted : bool := {'true' if polls_ok else 'false'}.", ""]
+    info = {"retry": retry, "reroute": reroute, "kill": kill, "finish_ok": fin_ok, "finish_err": fin_err, "poll": s, "recovery": recs, "poll_call_sites": sites}
     return "\n".join(lines), info
 
 
